@@ -15,7 +15,7 @@ from hypothesis import strategies as st
 
 from vlib import expr as E
 from vlib import gen as G
-from vlib.common import Failure, drive
+from vlib.common import Failure, digest, drive
 
 RULE = ("enumeration: concrete node classes (introspected) x operand slots x 7 filler shapes, remaining slots "
         "literals; trees: generated terms depth<=4 over binary/unary/builtin(with params)/call(args, kwargs)/"
@@ -277,6 +277,184 @@ def culprit(ast, refs):
         return ast[0]
 
 
+# ---------------------------------------------------------------------------------------------------------------
+# shared node objects: the reported set of a node must not depend on who asked first, in which accumulator
+def check_shared(ast, root_first):
+    """Builds the term with ONE object per distinct sub-term (memoised construction), interrogates the root and then
+    every sub-node object itself (or the other way round), then reuses the node objects inside two new parents.  Every
+    answer must be exactly the AST-derived set of that node: an answer that depends on an earlier query (a memo filled
+    from the caller's accumulator, a cache keyed too coarsely) is a wrong answer for one of them."""
+    roots, refs, m = world()
+    memo = {}
+    try:
+        ex = E.build(ast, refs, memo=memo)
+    except Exception:
+        return None, 0
+    if not E.is_ref(ex):
+        return None, 0
+    nodes = [(a, o) for a, o in memo.values() if E.is_ref(o) and a[0] != "loc"]
+    nodes.sort(key=lambda ao: E.size(ao[0]), reverse=root_first)
+
+    def ask(a, o, how):
+        try:
+            rep = o._get_dependencies()
+            got = {E.dep_of_ref(r) for r in rep}
+        except Exception as e:
+            return Failure("C05:shared-node:raises", {"term": E.render(ast), "node": E.render(a), "raised": repr(e)[:200]})
+        want = E.deps(a)
+        if got != want:
+            return Failure(f"C05:shared-node-deps-wrong:{type(o).__name__}",
+                           {"term": E.render(ast), "node": E.render(a), "asked": how,
+                            "missing": sorted(map(show_dep, want - got)), "extra": sorted(map(show_dep, got - want))})
+        return None
+    for a, o in nodes:
+        f = ask(a, o, "root first, then each node" if root_first else "smallest node first, root last")
+        if f:
+            return f, len(nodes)
+    # reuse: every node object as the right operand of a new parent whose left operand is another location
+    for a, o in nodes[:6]:
+        for pa in (["bin", "-", Z, a], ["call", E.loc("F", ("i", "add2")), [B, a], []]):
+            try:
+                po = E.build(pa, refs, memo=memo)
+            except Exception:
+                continue
+            f = ask(pa, po, "new parent around an already interrogated node") or ask(a, o, "node again after its new parent")
+            if f:
+                return f, len(nodes)
+    return None, len(nodes)
+
+
+# ---------------------------------------------------------------------------------------------------------------
+# refs inside tuples (multi-dimensional keys, tuple arguments): whatever the library does with them, a location whose
+# change moves the REAL value of the expression must be reported
+def tsum(t=(), *more):
+    s = 0
+    for x in tuple(t) + more:
+        if isinstance(x, tuple):
+            s = s + tsum(x)
+        elif isinstance(x, (int, float)):
+            s = s + x
+        else:
+            s = s + 1000
+    return s
+
+
+def real_value(ex):
+    from xdeps.refs import BaseRef
+
+    def canon(v):
+        if isinstance(v, BaseRef):
+            return "ref:" + str(v)
+        if isinstance(v, tuple):
+            return tuple(canon(x) for x in v)
+        return E.show(v)
+    try:
+        return ("ok", canon(ex._get_value()))
+    except Exception as e:
+        return ("exc", type(e).__name__)
+
+
+TUPLE_LEAVES = ["a", "b", "i0", "s0"]
+
+
+def tuple_term(spec, refs):
+    """spec = [slot, shape] with shape a nested list of leaf names / numbers -> expression"""
+    d, F = refs["d"], refs["F"]
+
+    def tup(sh):
+        return tuple(tup(x) if isinstance(x, list) else (d[x] if isinstance(x, str) else x) for x in sh)
+    slot, shape = spec
+    t = tup(shape)
+    if slot == "key":
+        return d["grid"][t]
+    if slot == "key(nested owner)":
+        return d["n0"]["g"][t]
+    if slot == "arg":
+        return F["tsum"](t)
+    if slot == "arg2":
+        return F["tsum"](d["z"], t)
+    if slot == "kwarg":
+        return F["tsum"](t=t)
+    if slot == "binop(tuple * ref)":
+        return t * d["i0"]
+    if slot == "binop(ref-sized repeat, then call)":
+        return F["tsum"](t * d["i0"])
+    if slot == "builtin param":
+        return divmod(d["z"], t)
+    raise ValueError(slot)
+
+
+TUPLE_SLOTS = ["key", "key(nested owner)", "arg", "arg2", "kwarg", "binop(tuple * ref)",
+               "binop(ref-sized repeat, then call)", "builtin param"]
+
+
+def check_tuple(spec):
+    roots, refs, m = world()
+    grid = {(i, s): 100.0 * i + s for i in (1, 2) for s in (2, 3)}
+    grid.update({(i,): 7.0 + i for i in (1, 2)})
+    roots["d"]["grid"] = grid
+    roots["d"]["n0"]["g"] = dict(grid)
+    roots["F"]["tsum"] = tsum
+    try:
+        ex = tuple_term(spec, refs)
+    except Exception:
+        return None, "build-raises"
+    if not E.is_ref(ex):
+        return None, "constant"
+    try:
+        rep = ex._get_dependencies()
+        got = {E.dep_of_ref(r) for r in rep}
+    except Exception as e:
+        return Failure("C05:tuple:raises", {"spec": spec, "term": str(ex), "raised": repr(e)[:200]}), "x"
+    if not isinstance(rep, set):
+        return Failure("C05:not-a-set:tuple", {"spec": spec, "term": str(ex), "returned": repr(rep)}), "x"
+    moved = 0
+    for name in TUPLE_LEAVES + ["z"]:
+        v0 = real_value(ex)
+        old = roots["d"][name]
+        newv = NEW_VALUES.get(name, NEW_VALUES["num"])
+        try:
+            m.set_value(refs["d"][name], newv)
+        except Exception:
+            roots["d"][name] = old
+            continue
+        v1 = real_value(ex)
+        roots["d"][name] = old
+        if v0 != v1:
+            moved += 1
+            if ("loc", "d", (("i", name),)) not in got:
+                return Failure("C05:value-follows-unreported-location:ref-inside-tuple",
+                               {"spec": spec, "term": str(ex), "location": f"d['{name}']", "value_before": v0,
+                                "value_after": v1, "reported": sorted(map(show_dep, got))}), "x"
+    return None, ("value-moves" if moved else "value-ignores-tuple-members")
+
+
+def tuple_specs():
+    leaf = st.sampled_from(TUPLE_LEAVES) | st.sampled_from([1, 2, 2.5])
+    shape = st.lists(leaf | st.lists(leaf, min_size=1, max_size=2), min_size=1, max_size=3)
+    return st.tuples(st.sampled_from(TUPLE_SLOTS), shape).map(list)
+
+
+def run_tuples(ctx):
+    fixed = [[s, sh] for s in TUPLE_SLOTS for sh in (["i0", "s0"], ["i0"], ["a", "b"], ["a", 2], [["i0", "s0"]], [1, "s0"])]
+    for i, spec in enumerate(fixed):
+        if i % ctx.nshards != ctx.shard:
+            continue
+        f, info = check_tuple(spec)
+        ctx.stats.case({"tuple": spec}, True, ["tuple", f"tuple-slot:{spec[0]}", f"tuple-outcome:{info}"])
+        if f:
+            ctx.fail(f, {"kind": "tuple", "spec": spec})
+
+    def body(spec):
+        f, info = check_tuple(spec)
+        ctx.stats.case({"tuple": spec}, any(isinstance(x, (str, list)) for x in spec[1]),
+                       ["tuple", f"tuple-slot:{spec[0]}", f"tuple-outcome:{info}"])
+        if f is not None:
+            f.case = {"kind": "tuple", "spec": spec}
+        return f
+    drive(ctx, tuple_specs(), body, ctx.n(60, 600), salt=9, label="C05 tuples")
+
+
 def run_enumeration(ctx):
     table = slot_table()
     classes = discover()
@@ -327,6 +505,13 @@ def run_trees(ctx):
         ctx.stats.case({"term": E.render(ast)}, E.n_ops(ast) >= 2, ["tree", f"outcome:{info}"])
         if f is not None:
             f.case = {"kind": "term", "ast": ast}
+            return f
+        root_first = int(digest(ast), 16) % 3 != 0
+        f, nn = check_shared(ast, root_first)
+        if nn >= 2:
+            ctx.stats.classes["shared-nodes:" + ("root-first" if root_first else "leaves-first")] += 1
+        if f is not None:
+            f.case = {"kind": "shared", "ast": ast, "root_first": root_first}
         return f
     drive(ctx, TG.strategy(4), body, n, salt=5, label="C05 trees")
 
@@ -334,6 +519,7 @@ def run_trees(ctx):
 def run(ctx):
     run_enumeration(ctx)
     run_trees(ctx)
+    run_tuples(ctx)
 
 
 def replay(ctx, case):
@@ -341,5 +527,9 @@ def replay(ctx, case):
         table = slot_table()
         unc = [c for c in discover() if c not in table and c not in ABSTRACT]
         return Failure("C05:uncovered-node-class", {"classes": unc}) if unc else None
+    if case.get("kind") == "shared":
+        return check_shared(case["ast"], case["root_first"])[0]
+    if case.get("kind") == "tuple":
+        return check_tuple(case["spec"])[0]
     f, _ = check_term(case["ast"], "replay", k5=bool(case.get("k5")))
     return f
